@@ -60,8 +60,9 @@ def _reps_explicit(rnd):
     return out
 
 
-def gen_rwms(rnd):
-    version = rnd.choice(['1.4', '1.6', '2.0'])
+def gen_rwms(rnd, iset=None):
+    # the three file versions are cycled through so that every run covers each of them
+    version = rnd.choice(['1.4', '1.6', '2.0']) if iset is None else ['2.0', '1.6', '1.4'][iset % 3]
     nrw = rnd.choice([1, 2])
     fs = {'fmt': 'rwms', 'version': version, 'prefix': 'ensA', 'postfix': 'ms1',
           'nfct': [rnd.choice([1, 2]) if version != '1.4' else 1 for _ in range(nrw)], 'nsrc': [rnd.choice([1, 2]) for _ in range(nrw)],
@@ -149,7 +150,7 @@ FAMILIES = {
     'sfcf_o': (SF, lambda rnd: _sfcf(rnd, 'o')), 'sfcf_c': (SF, lambda rnd: _sfcf(rnd, 'c')), 'sfcf_a': (SF, lambda rnd: _sfcf(rnd, 'a')),
     'hadrons': (HD, gen_hadrons),
 }
-NSETS = {'quick': {'default': 3, 'gfms_gf': 2, 'gfms_qtop': 4, 'sfcf_c': 4, 'sfcf_o': 4, 'hadrons': 1}, 'thorough': {'default': 8, 'hadrons': 4}}
+NSETS = {'quick': {'default': 6, 'rwms': 9, 'gfms_gf': 4, 'gfms_qtop': 6, 'sfcf_c': 6, 'sfcf_o': 6, 'hadrons': 2}, 'thorough': {'default': 12, 'rwms': 18, 'hadrons': 6}}
 PER_CFG_FILES = ('sfcf_o', 'sfcf_c', 'hadrons')
 
 
@@ -291,7 +292,7 @@ def family_enum(family):
         rnd = random.Random('%s:%s' % (seed, family))
         nsets = -(-NSETS[tier].get(family, NSETS[tier]['default']) // nshards)
         for iset in range(nsets):
-            fs, call = gen(rnd)
+            fs, call = gen(rnd, iset) if family == 'rwms' else gen(rnd)
             fsobj = mod.build(fs)
             # the untruncated set must read correctly (otherwise the harness is wrong, not the reader)
             files = sorted(f for f in fsobj.files if fsobj.records[f])
